@@ -1766,7 +1766,8 @@ class SQLObject(with_metaclass(declarative.DeclarativeMeta, object)):
                        for name, value in self._reprItems()]))
 
     def __sqlrepr__(self, db):
-        return str(self.id)
+        # the id as a literal of that database (a string id must be quoted)
+        return sqlbuilder.sqlrepr(self.id, db)
 
     @classmethod
     def sqlrepr(cls, value, connection=None):
